@@ -494,8 +494,9 @@ end SharedExp
 
 `n1, n2, n4, n5, n6, n10::from_f32` and `s8::from_uf32` of src/color/formats.rs on binary32 bit
 patterns with the operations of `ConvF32.lean`, and the packed formats of
-src/encode/uncompressed.rs built from them.  (`s16::from_uf32` computes in `f64` and `n8`, `n16`,
-`xr10`, the YUV rows are in range by their cast / `min` alone: they stay with the abstract
+src/encode/uncompressed.rs built from them.  (`s16::from_uf32` computes in `f64`: its bit-level
+model is `QuantBits.s16` in `EncTotal64.lean`, on the software binary64 of `ConvF64.lean`; `n8`,
+`n16`, `xr10`, the YUV rows are in range by their cast / `min` alone: they stay with the abstract
 `Rounding` model above.) -/
 namespace QuantBits
 open Dds.CF32
